@@ -27,7 +27,13 @@ class State:
         self.ghost = ghost if ghost is not None else {}
 
     def fork(self, *conds):
-        st = State(dict(self.env), self.pc + [c for c in conds if c is not None], self.out, self.mode, self.handler_exc, dict(self.ghost))
+        have = {c.get_id() for c in self.pc}
+        new = []
+        for c in conds:
+            if c is not None and c.get_id() not in have and not z3.is_true(c):
+                have.add(c.get_id())
+                new.append(c)
+        st = State(dict(self.env), self.pc + new, self.out, self.mode, self.handler_exc, dict(self.ghost))
         for c in conds:
             if c is not None:
                 _note_recognisers(c, st.ghost)
@@ -307,8 +313,61 @@ class Core:
         """extend the path condition by facts and by the ground definitional instances of the spec
         applications in them (consequences of the definitions, so sound to add)"""
         facts = [f for f in facts if f is not None]
-        extra = self.speclib.unfold(facts, depth=2, successor=False, known=list(st.pc) + facts) if facts else []
+        if not facts:
+            return st
+        facts = self.open_defs(facts, list(st.pc))
+        known = list(st.pc) + facts
+        extra = self.speclib.unfold(facts, depth=2, successor=False, known=known)
+        have = {f.get_id() for f in known}
+        inst = [f for f in self._instantiate(known + extra) if f.get_id() not in have]
+        inst = self.open_defs(inst, known)
+        extra += inst
+        if inst:
+            extra += self.speclib.unfold(inst, depth=1, successor=False, known=known)
         return st.fork(*facts, *extra)
+
+    def open_defs(self, facts, known, depth=3):
+        """a top-level fact that is an application of a recursive Boolean spec function holds, so its
+        body holds: add the body as a fact of its own (so that recogniser facts inside become visible
+        syntactically and quantifiers inside become top-level hypotheses)"""
+        out = list(facts)
+        frontier = list(facts)
+        names = {d.name(): n for n, d in self.speclib.decls.items()}
+        for _ in range(depth):
+            nxt = []
+            for f in frontier:
+                for c in _conjuncts(f):
+                    if z3.is_app(c) and c.decl().name() in names and z3.is_bool(c) and not (
+                            names[c.decl().name()] in self.speclib.opaque and names[c.decl().name()] not in self.speclib.revealed):
+                        g = {}
+                        for k in known + out:
+                            _note_recognisers(k, g)
+                        self.speclib._ghost = g
+                        try:
+                            body = self.speclib.instance(names[c.decl().name()], c).arg(1)
+                        finally:
+                            self.speclib._ghost = None
+                        if not any(body.eq(o) for o in out):
+                            out.append(body)
+                            nxt.append(body)
+            frontier = nxt
+            if not frontier:
+                break
+        return out
+
+    def learn(self, st: State, terms):
+        """new ground terms (e.g. a loop variable bound to s[i]) may trigger quantified hypotheses of the
+        path condition: add those instances (and their unfoldings) to the path condition"""
+        have = {f.get_id() for f in st.pc}
+        inst = [f for f in self._instantiate(list(st.pc) + list(terms)) if f.get_id() not in have]
+        if not inst:
+            return st
+        # instance `Q -> phi(t)` with Q a top-level hypothesis: phi(t) itself is a fact
+        tops = {c.get_id() for f in st.pc for c in _conjuncts(f)}
+        direct = [f.arg(1) for f in inst if z3.is_app(f) and f.decl().kind() == z3.Z3_OP_IMPLIES and f.arg(0).get_id() in tops]
+        inst = self.open_defs(inst + direct, list(st.pc))
+        extra = self.speclib.unfold(inst, depth=1, successor=False, known=list(st.pc))
+        return st.fork(*inst, *extra)
 
     def oblige(self, st: State, kind: str, goal, note=""):
         self.obligations.append(Obligation(f"{self.fn_key}/{kind}", st.pc, goal, note))
@@ -354,6 +413,16 @@ def _has_quant(t):
             stack.extend(x.children())
     _quant_cache[k] = res
     return res
+
+
+def _conjuncts(f, depth=0):
+    if z3.is_and(f) and depth < 6:
+        for c in f.children():
+            yield from _conjuncts(c, depth + 1)
+    elif z3.is_or(f) and f.num_args() == 1:
+        yield from _conjuncts(f.arg(0), depth + 1)
+    else:
+        yield f
 
 
 def _note_recognisers(c, ghost, depth=0):
